@@ -53,7 +53,8 @@ def gen_family(name, consts, *, timeout=900, workers=8, simulate=None, depth=Non
 
 
 def decorate(scs, *, seed, calls_choices=(("invoke",), ("stream",), ("invoke", "stream"), ("stream", "invoke")),
-             snode_frac=0.35, strm_branch_frac=0.3, noid_frac=0.0, state_frac=0.0, fail_variants=False, state_variants=False):
+             snode_frac=0.35, strm_branch_frac=0.3, noid_frac=0.0, state_frac=0.0, fail_variants=False, state_variants=False,
+             delay_frac=0.5, echo_frac=0.0, wrap_frac=0.3):
     """Secondary dimensions that TLC does not enumerate are spread deterministically (seeded) over the scenarios."""
     rnd = random.Random(seed)
     for i, sc in enumerate(scs):
@@ -66,6 +67,22 @@ def decorate(scs, *, seed, calls_choices=(("invoke",), ("stream",), ("invoke", "
             sc["noid"] = True
         if state_frac and not sc.get("state") and rnd.random() < state_frac:
             sc["state"] = True
+        if sc["mode"] in ("wf", "dag") and len(sc["nodes"]) > 1 and rnd.random() < delay_frac:
+            # completion order of parallel node bodies (matters for eager execution): a rank per node, larger finishes later
+            sc["delay"] = {n: rnd.randrange(4) for n in sc["nodes"]}
+        for inner in (sc.get("sub") or {}).values():
+            if rnd.random() < wrap_frac and sc["mode"] != "wf":
+                inner["wrap"] = True
+        if echo_frac and rnd.random() < echo_frac and not sc.get("sub"):
+            # echo nodes pass their input on unchanged: equal keys can then meet at a fan-in (merge error).  Value mode only:
+            # in stream mode the engine concatenates instead (finding D13, property C04)
+            cand = [n for n in sc["nodes"] if n not in sc.get("rerun", []) and not any(f["n"] == n for f in sc.get("fail", []))]
+            sc["echo"] = [n for n in cand if rnd.random() < 0.6]
+            if sc["echo"]:
+                sc["calls"] = ["invoke"]
+                sc["snodes"] = []
+                for b in sc["branches"]:
+                    b["strm"] = False
         if state_variants:
             # C11: every scenario is stateful; post-handlers, value-modifying handlers, a state modifier at some resume, stateful inner graphs
             sc["state"] = True
@@ -86,6 +103,8 @@ def decorate(scs, *, seed, calls_choices=(("invoke",), ("stream",), ("invoke", "
                 sc["fail"] = sc["fail"] + [{"n": others[rnd.randrange(len(others))], "kind": sc["fail"][0]["kind"]}]
             elif r < 0.30:
                 sc["fail"] = [{"n": sc["fail"][0]["n"], "kind": "cancel"}]
+            elif r < 0.45 and sc["fail"][0]["kind"] == "err":
+                sc["fail"] = [{"n": sc["fail"][0]["n"], "kind": "serr"}]      # error item in the middle of the node's output stream
         sc.setdefault("maxcalls", 8)
     return scs
 
